@@ -11,6 +11,7 @@ package util
 
 import (
 	"fmt"
+	"math/rand"
 	"strings"
 	"testing"
 	"unicode/utf8"
@@ -152,6 +153,22 @@ func c13Doc(g *vh.JGen) (string, string) {
 func TestVerifC13(t *testing.T) {
 	r := vh.Start("C13")
 	defer r.Finish()
+	{
+		g := &vh.JGen{Rng: rand.New(rand.NewSource(r.Seed + 77))}
+		var cs []string
+		for i := 0; i < r.N(300, 3000); i++ {
+			d, _ := c13Doc(g)
+			cs = append(cs, d)
+		}
+		r.Independent("deserialize-serialize", "DeserializeSessionDescription / SerializeSessionDescription", cs, func(c string) string {
+			sd, err := DeserializeSessionDescription(c)
+			if err != nil || sd == nil {
+				return "err"
+			}
+			out, err := SerializeSessionDescription(sd)
+			return fmt.Sprintf("%s|%v", vh.Hex([]byte(out)), err != nil)
+		})
+	}
 	defer func() { // a crash of the harness itself must not pass for a clean run
 		if p := recover(); p != nil {
 			r.Compare("harness-crash", "TestVerifC13", fmt.Sprint(p), "")
